@@ -204,7 +204,7 @@ theorem fresh_heredoc_redirect {st : List RedirCell} {pos : Span} {i : RedirIn} 
     subst hc
     exact hw.fresh
 
-theorem sp_redirection_heredoc (hT : TokSpans TI) {np : NestedParse} {sorts : List Srt}
+theorem sp_redirection_heredoc (hT : TokAct TI) {np : NestedParse} {sorts : List Srt}
     {args : List SVal} {σ : Srt} {F f g : Nat} {st : List RedirCell}
     (h : absAction "p_redirection_heredoc" sorts = some σ)
     (ha : Forall2 HasSort sorts args) (hseg : SegV true len f args g) (hgF : g < F) :
@@ -306,7 +306,7 @@ theorem keeps_partsspan_np {F : Nat} {st : List RedirCell} {parts : List Node}
       rw [hsa, hsb, posIn_nopend (h a (List.mem_of_mem_head? ha)),
         posIn_nopend (h b (List.mem_of_getLast? hb))]
 
-theorem sp_simple_list (hT : TokSpans TI) {np : NestedParse} {sorts : List Srt}
+theorem sp_simple_list (hT : TokAct TI) {np : NestedParse} {sorts : List Srt}
     {args : List SVal} {σ : Srt} {F f g : Nat} {st : List RedirCell}
     (h : absAction "p_simple_list" sorts = some σ)
     (ha : Forall2 HasSort sorts args) (hseg : SegV true len f args g)
@@ -384,7 +384,7 @@ theorem sp_simple_list (hT : TokSpans TI) {np : NestedParse} {sorts : List Srt}
     · cases h
   · cases h
 
-theorem keeps_inputunit (hT : TokSpans TI) {np : NestedParse} {args : List SVal} {F : Nat}
+theorem keeps_inputunit (hT : TokAct TI) {np : NestedParse} {args : List SVal} {F : Nat}
     {st : List RedirCell} :
     Keeps (StP TI len F st) (actionCore np "p_inputunit" args)
       (fun r => r = (.none, false) ∨ ∃ n, r = (.node n, true) ∧ args.head? = some (.node n)) := by
@@ -546,7 +546,7 @@ theorem pipeline_facts {lhs : Nat} {rhs : List Nat} {vals : List SVal}
       | nodes k => rw [hs] at k6; cases k6
 
 /-- **every semantic action re-establishes the span invariant of the stack** -/
-theorem act_spans (hT : TokSpans TI) {np : NestedParse}
+theorem act_spans (hT : TokAct TI) {np : NestedParse}
     (hW : ∀ F st, WordSat (StP TI len F st) np len)
     {p lhs : Nat} {rhs : List Nat} {rest args : List (Nat × SVal)} {la : Option (Nat × SVal)}
     (hprod : realTables.prods[p]? = some (lhs, rhs)) (hargs : args.map (·.1) = rhs)
@@ -829,7 +829,7 @@ theorem spans_hooks (hT : TokSpans TI) {np : NestedParse} (hnp : NPOK np)
     · rw [he]
       exact SatS.weaken (SatS.of_sat action_unknown _) (fun _ _ _ => trivial)
         (fun _ _ _ h => h.elim) (fun _ h => h)
-    · have hspan := satS_action_of_core (act_spans (len := len) hT hW hprod hargs hrest hla hab
+    · have hspan := satS_action_of_core (act_spans (len := len) hT.act hW hprod hargs hrest hla hab
         (forall2_hasSort_of_vi hF2))
       refine SatS.weaken (SatS.and_sat hspan
         (hCact.weaken (fun _ h => h.1) (fun _ _ => trivial))) ?_ ?_ (fun _ h => h)
